@@ -492,6 +492,48 @@ def r6(ctx):
               f"name_format candidates: {[norm(x) for x in fmt]}")
 
 
+def r9(ctx):
+    """Multi-column factor values are split into columns with name i paired with column i; reduced encodings use the reduced name format."""
+    P = ctx.project
+    regs = P.registrations("formulaic.utils.cast.as_columns")
+    ctx.floor("C02.R9", len(regs), 3, "as_columns registrations")
+    n = 0
+    for f in regs:
+        for r in returns_of(f.node):
+            v = r.value
+            if isinstance(v, ast.DictComp):
+                n += 1
+                ctx.look()
+                g = v.generators[0]
+                i = g.target.id if isinstance(g.target, ast.Name) else "?"
+                ok = norm(g.iter) == "range(data.shape[1])" and not g.ifs and norm(v.key) == f"column_names[{i}]" and norm(v.value) == f"data[:, {i}]"
+                ctx.check(ok, "C02.R9", f"as_columns[{f.node.args.args[0].annotation and norm(f.node.args.args[0].annotation)}]: name i labels column i", f.module.line(r),
+                          ctx.construct(f"formulaic.utils.cast.as_columns[{norm(f.node.args.args[0].annotation)}]", text="name/column pairing"),
+                          f"split is `{norm(v)[:100]}`; expected {{column_names[i]: data[:, i] for i in range(data.shape[1])}}")
+            elif isinstance(v, ast.Call) and norm(v) == "dict(data.items())":
+                n += 1
+                ctx.ok("C02.R9", "as_columns[DataFrame] keeps each column under its own label", f.module.line(r))
+        t = norm(f.node)
+        if "column_names" in t:
+            ok = "column_names = data.__formulaic_metadata__.column_names" in t and "column_names = list(range(data.shape[1]))" in t
+            ctx.check(ok, "C02.R9", "declared column names are used when present, else 0..k-1", f.where,
+                      ctx.construct(f"formulaic.utils.cast.as_columns[{norm(f.node.args.args[0].annotation)}]", text="column names source"), "column_names source changed")
+    ctx.floor("C02.R9", n, 3, "column splits")
+    pm = P.func("formulaic.utils.cast.propagate_metadata").locals_named("wrapper")
+    ok = "return FactorValues(evaluated, metadata=data.__formulaic_metadata__)" in norm(pm.node)
+    ctx.check(ok, "C02.R9", "splitting into columns keeps the factor's metadata (name format, drop field)", pm.where, ctx.construct(pm, text="metadata"), "propagate_metadata changed")
+    gf = P.method("formulaic.materializers.types.factor_values.FactorValuesMetadata", "get_format")
+    r = returns_of(gf.node)
+    ok = bool(r) and norm(r[0].value) == "self.format_reduced if self.reduced and self.format_reduced else self.format"
+    ctx.check(ok, "C02.R9", "a reduced encoding is labelled with the reduced name format, a full one with the full format", gf.where, ctx.construct(gf, text="get_format"),
+              f"get_format returns `{norm(r[0].value) if r else None}`")
+    ap = P.method("formulaic.transforms.contrasts.Contrasts", "apply")
+    t = norm(ap.node)
+    ok = t.count("format=self.get_factor_format(levels, reduced_rank=reduced_rank), format_reduced=self.get_factor_format(levels, reduced_rank=True)") == 2
+    ctx.check(ok, "C02.R9", "contrast encodings carry both name formats for the rank mode they were built in", ap.where, ctx.construct(ap, text="formats"),
+              "Contrasts.apply must set format / format_reduced from get_factor_format")
+
+
 def siblings_equal(ctx, rule: str, methods: List[str]):
     P = ctx.project
     pa, na = P.cls(PANDAS), P.cls(NARWHALS)
@@ -540,4 +582,4 @@ def r8(ctx):
               "formulaic:interaction separator", f"separators used: {sorted(seps)}; FACTOR_MATCHER splits on ':' = {ok_m}")
 
 
-RULES = [("C02.R1", r1), ("C02.R2", r2), ("C02.R3", r3), ("C02.R4", r4), ("C02.R5", r5), ("C02.R6", r6), ("C02.R7", r7), ("C02.R8", r8)]
+RULES = [("C02.R1", r1), ("C02.R2", r2), ("C02.R3", r3), ("C02.R4", r4), ("C02.R5", r5), ("C02.R6", r6), ("C02.R7", r7), ("C02.R8", r8), ("C02.R9", r9)]
